@@ -136,6 +136,9 @@ def generate(repo, ws, write_if_changed):
         dict(kind="fn", name="update_queue", impl=r"impl<S> Worker<S>", wrap="impl Worker"),
         dict(kind="fn", name="in_sampling_window", impl=r"impl<S> Worker<S>", wrap="impl Worker"),
     ]))
+    emit("row_namespace_data_c06.rs", slice_file(repo, "types/src/row_namespace_data.rs", [
+        dict(kind="fn", name="verify", impl=r"^impl RowNamespaceData$", wrap="impl RowNamespaceData"),
+    ]))
     emit("commitment_c12.rs", slice_file(repo, "types/src/blob/commitment.rs", [
         dict(kind="fn", name="merkle_mountain_range_sizes"),
         dict(kind="fn", name="blob_min_square_size"),
